@@ -36,7 +36,8 @@ def txt_case(idx, case, engine):
             L.append("K %d %d %d %d %s %d %s" % (1 if s["res"] else 0, mask, ERR[s["err"]], len(s["calls"]), calls, len(s["bound"]), b))
         else:
             raise MachineryError("unknown step " + a)
-    L.append("E")
+    fin = " ".join("%d %d %d %d %d" % (NAME[x[0]], {"none": -1, **DEFT}[x[1]], x[2], x[3], DEFK.get(x[4], 0)) for x in case["fin"])
+    L.append("E %d %s" % (len(case["fin"]), fin))
     return "\n".join(L)
 
 
